@@ -87,6 +87,10 @@ class _Factory:
         return ('adapted', self.t, ob)
 
 
+class _SubSuper(super):
+    pass
+
+
 def observe(w, hist):
     from zope.interface import Interface, implementedBy, providedBy
     idx = {id(x): k for k, x in enumerate(w.I)}
@@ -112,8 +116,12 @@ def observe(w, hist):
                 if bool(T.providedBy(s)) != (t in exp):
                     raise Violation('%s: %s.providedBy(...) is %s, expected %s' % (ctx, IN[t], t not in exp, t in exp),
                                     signature='C19:I.providedBy-super')
-                for how in ('queryAdapter', 'adapter_hook', 'queryMultiAdapter'):
+                for how in ('queryAdapter', 'adapter_hook', 'queryMultiAdapter', 'queryMultiAdapter:subclass-of-super',
+                            'queryAdapter:subclass-of-super'):
                     s2 = super(C, ob)
+                    if how.endswith(':subclass-of-super'):
+                        s2 = _SubSuper(C, ob)       # a proxy whose type is a subclass of super is a super proxy all the same
+                        how = how.split(':')[0]
                     if how == 'queryAdapter':
                         r = w.regs[t].queryAdapter(s2, w.IP)
                     elif how == 'adapter_hook':
